@@ -186,6 +186,9 @@ def run(ctx, prog):
                         continue
                     r = outs[0].ret
                     valid = (not has_dir) or (isinstance(lab, int) and 1 <= lab <= nspace)
+                    if has_dir and terms.has_unk(r):
+                        ctx.ob('C07.G2', key, None, f.where, 'direction %s: the returned expression contains a construct outside the model (%s): not decided' % (lab, terms.has_unk(r)[0][:40]))
+                        continue
                     if has_dir:
                         if valid:
                             ok = not is_error_value(r) and bool(terms.syms(r))
